@@ -925,6 +925,27 @@ func c07Inject(t *testing.T, v c07Variant, rng *vRand, stage int, form int) c07R
 	return res
 }
 
+// ---------------------------------------------------------------- alerts while the handshake runs
+
+// c07AlertSession: the client does not trust the server's certificate, so it ends the handshake with an alert
+// after the server's flight: in DTLS 1.3 the handshake keys are in use by then and the alert must leave
+// PROTECTED at epoch 2 (5aa3cd1); in DTLS 1.2 it leaves in clear at epoch 0.  Every record is labelled.
+func c07AlertSession(t *testing.T, v c07Variant) c07Res {
+	t.Helper()
+	res := c07Res{Kind: "session", Variant: v.Name + "/untrusted-server", V13: v.V13, Drop: -1, Stage: -1, PostDrop: -1, KUDrop: -1}
+	ccfg, scfg := v.mk()
+	ccfg.RootCAs = vGetCreds().OtherCA
+	lab := newLab(t, ccfg, scfg)
+	lab.Pump.run(lab.bothDone, 30*time.Second)
+	res.Done = lab.established()
+	res.Err = fmt.Sprintf("client=%v server=%v", lab.Client.Err, lab.Server.Err)
+	secrets := c07HandshakeSecrets(lab, v.V13)
+	c07Scan(lab, v.V13, secrets, &res)
+	lab.close()
+
+	return res
+}
+
 // ---------------------------------------------------------------- empty pre-shared key
 
 // c07EmptyPSK: a PSK callback that returns an EMPTY key (mode: who).  With an empty key the pre_master_secret
@@ -1119,6 +1140,14 @@ func TestVerifC07(t *testing.T) {
 		}
 		v := v
 		vBubble(t, func(t *testing.T) { c07Resume(t, v, rng, out) })
+	}
+	for _, v := range variants {
+		if v.Name == "cert-gcm" || v.Name == "cert-ccm-cid" || v.V13 {
+			v := v
+			var res c07Res
+			vBubble(t, func(t *testing.T) { res = c07AlertSession(t, v) })
+			out.emit(res)
+		}
 	}
 	for r := 0; r < rounds; r++ {
 		for _, v := range variants {
